@@ -114,6 +114,47 @@ theorem shared_entry_same_args_partial (H : Bs → Bs) (E : Env) (U : List (Fn R
   exact sameArgs_of_stream_eq hu.names (hu.cal _ h₁) (hu.calls _ h₁) (hu.calls _ h₂) hd₁ hd₂ hb₁ hb₂
     (hu.hashable _ h₁ _ hd₁) (hu.hashable _ h₂ _ hd₂) hs
 
+/-- **A result is stored under the id computed from THIS call's arguments, and nowhere else.**  When
+a call executes the function (either version of the code, any store), the value is afterwards found
+under `(fn.fid, args id of this call)`, and the entry under every other id is what it was — whatever
+other computations of the same cached function are under way (the id is a parameter of `compute`,
+not state of the instance), which is why nested and overlapping computations can be run one after
+the other in completion order. -/
+theorem stored_under_own_id (ver : JoblibModel.MemoryCache.Version) (H : Bs → Bs) (E : Env) (st : St R)
+    (fn : Fn R) (c : Call) (cb : Bool) (k : Bs) (v : R)
+    (hk : argsId H E fn.cal fn.ig c = .ok k)
+    (hx : (step ver H E st (.call fn c cb)).1 = .value v true) :
+    dget (fn.fid, k) (step ver H E st (.call fn c cb)).2.entries = some v ∧
+      ∀ id, id ≠ (fn.fid, k) →
+        dget id (step ver H E st (.call fn c cb)).2.entries = dget id st.entries := by
+  simp only [JoblibModel.MemoryCache.step, cachedCall, hk] at hx ⊢
+  have hent : ∀ id, id ≠ (fn.fid, k) →
+      dget id (isInCacheAndValid st (fn.fid, k) cb).2.entries = dget id st.entries := by
+    intro id hne
+    unfold isInCacheAndValid
+    simp only
+    split
+    · split
+      · rw [checkCode_entries]
+      · split
+        · rw [checkCode_entries]
+        · show dget id (dpop (fn.fid, k) _) = _
+          rw [dget_dpop_ne hne, checkCode_entries]
+    · rw [checkCode_entries]
+  cases hi : (isInCacheAndValid st (fn.fid, k) cb).1 with
+  | some r => simp [hi] at hx
+  | none =>
+    simp only [hi] at hx ⊢
+    cases hb : bindOf fn.cal c with
+    | error e => simp [compute, hb] at hx
+    | ok b =>
+      simp only [compute, hb] at hx ⊢
+      simp only [Out.value.injEq, and_true] at hx
+      subst hx
+      refine ⟨dget_dset_self _ _ _, fun id hne => ?_⟩
+      show dget id (dset (fn.fid, k) _ _) = _
+      rw [dget_dset_ne hne, hent id hne]
+
 /-! ## The digest fallback (F12) makes the full statement false -/
 
 /-- `def f(a)`; value 0 is `{1, 'a'}`, value 1 is the set of the two digest strings
